@@ -4,7 +4,9 @@ Every verdict on the implementation's output comes from Lean: `checkPlan` (prove
 the spec, `plan_checker`) on the returned plan and objective, and the exact optimum `minRolls`
 (proved to be the true minimum, `cs_optimum_correct`).  The dual vectors the implementation
 priced are additionally pushed through the verified `dualFeasible`/`dualBound` (`dual_bound`):
-that is solve_cg's own lower-bound argument, certified per instance.
+that is solve_cg's own lower-bound argument, certified per instance.  solve_cg is also mirrored
+(Solvor/Cut/Mirror.lean, exact rationals): the mirror's plan and duals go through the same verified
+checkers, and its returned (status, plan) is compared with the implementation's (R_trace).
 """
 from __future__ import annotations
 
@@ -14,18 +16,25 @@ from pool import err_kind, run_pool
 AREAS = ["Cut"]
 LEVEL = "proof"
 ASSUMPTIONS = [
-    "C17: the master-LP / branch-and-price search itself is not modelled (DESIGN [S]); the property is decided on "
-    "the implementation's returned plan, objective and status by the verified checker and the proved exact optimum",
+    "C17: nothing is proved about the search itself (DESIGN [S] `master-LP mirror certifies` is open; solve_bp's tree "
+    "search is not modelled); the property is decided on the implementation's returned plan, objective and status by "
+    "the verified checker and the proved exact optimum",
+    "C17: the solve_cg mirror computes in exact rationals with the code's eps comparisons, the code in IEEE doubles",
     "C17: dual vectors are observed by wrapping the pricing call (knapsack_pricing / the custom pricing function); "
     "they only feed the supporting dual-bound certificate, never a verdict",
 ]
-RULE = ("cutting-stock instances (roll width 5-20, 1-4 piece sizes <= width with duplicates, demands 0-6) and "
+RULE = ("cutting-stock instances (roll width 5-20, 1-4 piece sizes <= width with duplicates, demands 0-6; every "
+        "fourth one in the thorough tier width <= 30, demands <= 8) and "
         "set-covering instances with an explicit column list and an exact pricing function over it (1-4 rows, "
         "<= 12 columns, entries 0-3; initial columns cover every demanded row), each solved by solve_cg and "
-        "solve_bp with default options, plus a small stream with max_iter in 0..3 and one with initial columns "
+        "solve_bp (solve_bp with max_nodes in {10,40,100} on generated instances, default on the hand-written "
+        "ones), plus a small stream with max_iter in 0..3 and one with initial columns "
         "that cannot cover the demands (excluded region); non-trivial = the run generated >= 1 column; distinct "
         "by canonical (function, instance, options)")
-TIMEOUT = 8.0
+# per-call wall-clock limit.  solve_bp is called with max_nodes <= 100 on the generated instances
+# (<= 1 s per call on the repaired code, solve_cg and the exact optimum take milliseconds), so
+# hitting it means the call did >= 15x the work any legitimate run needs.
+TIMEOUT = 15.0
 USABLE = ("OPTIMAL", "FEASIBLE")
 
 
@@ -33,8 +42,8 @@ USABLE = ("OPTIMAL", "FEASIBLE")
 # generator
 # ---------------------------------------------------------------------------
 
-def gen_cs(rng):
-    W = rng.randint(5, 20)
+def gen_cs(rng, big=False):
+    W = rng.randint(5, 30 if big else 20)
     n = rng.choice([1, 2, 2, 3, 3, 3, 4, 4])
     style = rng.random()
     if style < 0.6:
@@ -44,7 +53,7 @@ def gen_cs(rng):
     else:  # duplicates
         s = rng.randint(1, W)
         sizes = [s if rng.random() < 0.6 else rng.randint(1, W) for _ in range(n)]
-    dem = [rng.randint(0, 6) for _ in range(n)]
+    dem = [rng.randint(0, 8 if big else 6) for _ in range(n)]
     if rng.random() < 0.03:
         dem = [0] * n
     return {"mode": "cs", "W": W, "sizes": sizes, "demands": dem, "cols": [], "init": []}
@@ -93,6 +102,7 @@ def edge_cases():
     del base["opts"]
     yield {**base, "W": 17, "sizes": [1, 1], "demands": [5, 1]}
     yield {**base, "W": 5, "sizes": [5], "demands": [0]}
+    yield {**base, "W": 5, "sizes": [], "demands": []}
     yield {**base, "W": 5, "sizes": [5], "demands": [6]}
     yield {**base, "W": 20, "sizes": [1, 1, 1, 1], "demands": [6, 6, 6, 6]}
     yield {**base, "W": 10, "sizes": [3, 3], "demands": [2, 0]}
@@ -108,6 +118,10 @@ def expand(inst, rng=None):
         opts = {}
         if rng is not None and rng.random() < 0.08:
             opts = {"max_iter": rng.choice([0, 1, 2, 3])}
+        if fn == "solve_bp" and rng is not None:
+            # bound the tree search: with the default 10000 nodes a legitimate search can take
+            # minutes, and then a time-out would say nothing (see TIMEOUT)
+            opts["max_nodes"] = rng.choice([40, 40, 40, 10, 100])
         out.append({**inst, "fn": fn, "opts": opts})
     return out
 
@@ -187,7 +201,8 @@ def to_request(case, out):
             plan = r["sol"]
         obj = r["obj"]
         duals = r["duals"]
-    return ["case", case["mode"], case["W"], case["sizes"], case["demands"], case["cols"], plan, obj, duals]
+    return ["case", case["mode"], case["W"], case["sizes"], case["demands"], case["cols"], plan, obj, duals,
+            case["fn"], int(case["opts"].get("max_iter", 1000)), case["init"]]
 
 
 # ---------------------------------------------------------------------------
@@ -203,7 +218,7 @@ def judge(ctx, case, out, reply):
         return ctx.fail(function, klass, what, rep)
 
     rep = {"case": case, "impl": out, "model": reply}
-    opt, plan_ok, parts, rolls, dual = reply
+    opt, plan_ok, parts, rolls, dual, mirror = reply
     tag = ":max_iter" if "max_iter" in case["opts"] else ""
     excluded = case["mode"] == "cols" and not case.get("init_feasible", True)
     ctx.count("mode:" + case["mode"] + (":excluded_init" if excluded else "") + tag)
@@ -211,7 +226,7 @@ def judge(ctx, case, out, reply):
              sorted(case["opts"].items())]
     if out[0] == "timeout":
         ctx.count("timeouts")
-        fail(fn, "timeout", f"no result within {TIMEOUT:.0f} s (the exact optimum takes the model < 1 s)", rep)
+        fail(fn, "timeout", f"no result within {TIMEOUT:.0f} s (max_nodes={case['opts'].get('max_nodes', 10000)}; the exact optimum takes the model < 1 s)", rep)
         ctx.case(canon, False)
         return
     if out[0] != "ok":
@@ -221,6 +236,8 @@ def judge(ctx, case, out, reply):
             ctx.count("excluded_region_hits")
         else:
             fail(fn, "raises:" + kind, f"valid instance raised: {out[1][:200]}", rep)
+        if mirror is not None:
+            mirror_check(ctx, case, out, mirror, opt)
         ctx.case(canon, False)
         return
     r = out[1]
@@ -264,10 +281,35 @@ def judge(ctx, case, out, reply):
             ctx.count("dual_bound_tight")
             if st in USABLE and plan_ok and rolls == bound:
                 ctx.count("optimal_certified_by_impl_duals")
+    if mirror is not None:
+        mirror_check(ctx, case, ("ok", r), mirror, opt)
     generated = (r["iters"] if fn == "solve_cg" else r["evals"]) >= 1
     ctx.case(canon, generated and not excluded,
              {"case": case, "impl": {k: r[k] for k in ("status", "sol", "obj_repr")}, "optimum": opt,
               "dual": dual})
+
+
+def mirror_check(ctx, case, out, mirror, opt):
+    """The solve_cg mirror (Solvor/Cut/Mirror.lean): certificate checks on its own output, and
+    R_trace = its returned (status, plan) against the implementation's."""
+    m_status, m_plan, _m_iters, m_ok, m_feas, m_bound = mirror
+    if not m_feas:
+        raise Infra(f"mirror duals rejected by dualFeasible after scaling: {case}")
+    if opt is not None and m_bound > opt:
+        raise Infra(f"verified dual bound {m_bound} of the mirror exceeds the proved optimum {opt}: {case}")
+    if m_status in USABLE:
+        ctx.count("cert_checked_model" if m_ok else "mirror_plan_rejected_by_checker")
+        if m_ok and m_status == "OPTIMAL" and opt is not None and sum(c for _, c in m_plan) == m_bound == opt:
+            ctx.count("mirror_optimal_certified_by_own_duals")
+    if out[0] == "ok":
+        got = (out[1]["status"], out[1]["sol"])
+    else:
+        got = (err_kind(out), None)
+    want = (m_status, sorted(m_plan) if m_status != "OverflowError" else None)
+    if got == want:
+        ctx.count("r_trace_agree")
+    else:
+        ctx.tdiv(case["fn"], {"case": case, "impl": got, "mirror": want})
 
 
 def run_cases(ctx, cases):
@@ -278,11 +320,18 @@ def run_cases(ctx, cases):
         if rp and rp[0] == "error":
             raise Infra(f"model rejected request: {rp} for {c}")
         judge(ctx, c, o, rp)
+    h = ctx.cov["histogram"]
+    for k in ("cert_checked_impl", "cert_checked_model", "r_trace_agree", "timeouts", "excluded_region_hits",
+              "dual_bound_checked", "optimal_certified_by_impl_duals"):
+        ctx.cov[k] = h.get(k, 0)
+    ctx.cov["missing_theorems"] = ["cg_mirror_certifies ([S]: the solve_cg mirror returns a valid plan and a "
+                                   "dual-feasible vector on every input) - checked per instance instead"]
 
 
 def run(ctx, budget):
     ctx.cov["rule"] = RULE
-    ctx.cov["r_trace"] = "not defined: no master-LP mirror ([S]); all clauses are R_prop"
+    ctx.cov["r_trace"] = ("solve_cg: returned (status, plan as a sorted list) equals the Rat mirror's "
+                          "(Solvor/Cut/Mirror.lean); solve_bp: not defined (tree search not modelled)")
     cases = []
     for inst in list(edge_cases()) + [c["case"] for c in load_corpus("C17")]:
         if "fn" in inst:
@@ -290,8 +339,8 @@ def run(ctx, budget):
         else:
             cases += expand(inst)
     rng = ctx.rng
-    for _ in range(330 * budget):
-        cases += expand(gen_cs(rng), rng)
+    for i in range(330 * budget):
+        cases += expand(gen_cs(rng, big=(ctx.tier == "thorough" and i % 4 == 0)), rng)
     for _ in range(200 * budget):
         cases += expand(gen_cols(rng), rng)
     for _ in range(20 * budget):
